@@ -394,6 +394,20 @@ def run_range(exe, margs, lo, hi, env, res, lock, timeout, label, prefix=(), req
         if open_ev is None:
             # died outside a case (generator / cleanup): harness failure unless a sanitizer report names the library
             kind = classify_death(rc, err)
+            if (kind.startswith("asan:") or kind.startswith("ubsan:") or kind.startswith("crash:SIGSEGV@")) and first_lib_frame(err):
+                # e.g. the load-time constructor m4ri_init, m4ri_fini, or cache clean-up between cases
+                ev = Event(cur, "outside-case|-|-", "library code running between cases (constructor / destructor / cache clean-up)")
+                ev.fails.append(("outside-case|-|-|" + kind, "worker died outside a case: %s :: %s" % (kind, err.strip()[-1200:].replace("\n", " / "))))
+                ev.done = True
+                with lock:
+                    res.events.append(ev)
+                    res.outside_deaths = getattr(res, "outside_deaths", 0) + 1
+                    if res.outside_deaths >= 3:
+                        res.aborted = True   # every worker dies the same way (e.g. in the constructor): no point in restarting 10^4 times
+                if res.aborted:
+                    return
+                cur += 1
+                continue
             with lock:
                 res.harness_failures.append("%s: worker died outside a case near idx %d: %s\n%s" % (label, cur, kind, err[-1500:]))
             cur += 1
